@@ -45,7 +45,7 @@ def mc_writer(w, e, depth, full, live=False):
 
 
 def mc_reader(w, e, strict, pat, depth, full, live=False):
-    return dict(live=live, name="bufreader_w%d_%s_%s_p%d_d%d_%s" % (w, e, "strict" if strict else "inf", pat, depth, "full" if full else "bnd"),
+    return dict(live=live, heavy=(full and w >= 32), name="bufreader_w%d_%s_%s_p%d_d%d_%s" % (w, e, "strict" if strict else "inf", pat, depth, "full" if full else "bnd"),
                 module="MC_BufReader", workers=4, timeout=7200,
                 cfg_text='SPECIFICATION Spec\nCONSTANTS W = %d\n E = "%s"\n Strict = %s\n Pat = %d\n NW = 5\n Depth = %d\n'
                          ' Full = %s\n Data <- DataConst\nINVARIANTS Refines\nCHECK_DEADLOCK FALSE\n'
